@@ -24,7 +24,7 @@ func TestCheck(t *testing.T) {
 	ev = drv.NewEvidence("C16", "exploration", rule)
 	nBundles, k := 10, 16
 	if drv.Thorough() {
-		nBundles, k = 250, 16
+		nBundles, k = 120, 16
 	}
 	for _, p := range corpus.All() {
 		diff(p.Name, p.Files, [][]string{{}}, nil)
